@@ -36,7 +36,7 @@ static char pem_text[] = "-----PEM";
 EVP_PKEY_CTX *EVP_PKEY_CTX_new_from_name(OSSL_LIB_CTX *libctx, const char *name, const char *propquery)
 {
 	__CPROVER_assert(name != NULL, "M4: EVP_PKEY_CTX_new_from_name needs a name");
-	if (nondet_bool())
+	if (VO_FAILS())
 		return NULL;
 	vo_ctx_name = name;
 	o_ctx = 1;
@@ -57,7 +57,7 @@ void EVP_PKEY_CTX_free(EVP_PKEY_CTX *ctx)
 int EVP_PKEY_fromdata_init(EVP_PKEY_CTX *ctx)
 {
 	__CPROVER_assert(ctx == TAG(o_ctx) && o_ctx, "M4: EVP_PKEY_fromdata_init on a live context");
-	if (nondet_bool())
+	if (VO_FAILS())
 		return 0;
 	ctx_inited = 1;
 	return 1;
@@ -65,7 +65,7 @@ int EVP_PKEY_fromdata_init(EVP_PKEY_CTX *ctx)
 
 OSSL_PARAM_BLD *OSSL_PARAM_BLD_new(void)
 {
-	if (nondet_bool())
+	if (VO_FAILS())
 		return NULL;
 	o_bld = 1;
 	vo_jwk_live++;
@@ -99,7 +99,7 @@ int OSSL_PARAM_BLD_push_BN(OSSL_PARAM_BLD *bld, const char *key, const BIGNUM *b
 	p->len = bn->len;
 	for (i = 0; i < VO_PBYTES; i++)
 		p->bytes[i] = i < bn->len ? bn->b[i] : 0;
-	return nondet_bool();
+	return !VO_FAILS();
 }
 
 int OSSL_PARAM_BLD_push_octet_string(OSSL_PARAM_BLD *bld, const char *key, const void *buf, size_t bsize)
@@ -111,7 +111,7 @@ int OSSL_PARAM_BLD_push_octet_string(OSSL_PARAM_BLD *bld, const char *key, const
 	p->len = (unsigned)bsize;
 	for (i = 0; i < VO_PBYTES; i++)
 		p->bytes[i] = (buf && i < bsize) ? ((const unsigned char *)buf)[i] : 0;
-	return nondet_bool();
+	return !VO_FAILS();
 }
 
 int OSSL_PARAM_BLD_push_utf8_string(OSSL_PARAM_BLD *bld, const char *key, const char *buf, size_t bsize)
@@ -123,13 +123,13 @@ int OSSL_PARAM_BLD_push_utf8_string(OSSL_PARAM_BLD *bld, const char *key, const 
 	p->len = (unsigned)bsize;
 	for (i = 0; i < VO_PBYTES; i++)
 		p->bytes[i] = (buf && i < bsize) ? (unsigned char)buf[i] : 0;
-	return nondet_bool();
+	return !VO_FAILS();
 }
 
 OSSL_PARAM *OSSL_PARAM_BLD_to_param(OSSL_PARAM_BLD *bld)
 {
 	__CPROVER_assert(bld == TAG(o_bld) && o_bld, "M4: OSSL_PARAM_BLD_to_param on a live builder");
-	if (nondet_bool())
+	if (VO_FAILS())
 		return NULL;
 	o_params = 1;
 	vo_jwk_live++;
@@ -150,7 +150,7 @@ int EVP_PKEY_fromdata(EVP_PKEY_CTX *ctx, EVP_PKEY **ppkey, int selection, OSSL_P
 	__CPROVER_assert(ctx == TAG(o_ctx) && o_ctx && ctx_inited && ppkey != NULL && params == TAG(o_params) && o_params,
 			 "M4: EVP_PKEY_fromdata on an initialised context with built params");
 	vo_fromdata_calls++;
-	if (nondet_bool()) {              /* the key material does not make a key */
+	if (VO_FAILS()) {              /* the key material does not make a key */
 		int r = nondet_int();
 		__CPROVER_assume(r <= 0);
 		return r;
@@ -173,7 +173,7 @@ void EVP_PKEY_free(EVP_PKEY *pkey)
 int EVP_PKEY_get_size_t_param(const EVP_PKEY *pkey, const char *key_name, size_t *out)
 {
 	__CPROVER_assert(pkey == TAG(o_pkey) && o_pkey && key_name && out, "M4: EVP_PKEY_get_size_t_param arguments");
-	if (nondet_bool())
+	if (VO_FAILS())
 		return 0;
 	vo_bits_reported = nondet_size_t();
 	*out = vo_bits_reported;
@@ -184,7 +184,7 @@ const BIO_METHOD *BIO_s_mem(void) { return (const BIO_METHOD *)TAG(o_bio); }
 
 BIO *BIO_new(const BIO_METHOD *type)
 {
-	if (nondet_bool())
+	if (VO_FAILS())
 		return NULL;
 	o_bio = 1;
 	vo_jwk_live++;
@@ -204,7 +204,7 @@ int BIO_free(BIO *a)
 static int vo_pem_write(BIO *out, int priv)
 {
 	__CPROVER_assert(out == TAG(o_bio) && o_bio, "M4: PEM_write_bio_* on a live BIO");
-	if (nondet_bool())
+	if (VO_FAILS())
 		return 0;
 	vo_pem_written = 1;
 	vo_pem_priv = priv;
@@ -234,7 +234,7 @@ long BIO_ctrl(BIO *bp, int cmd, long larg, void *parg)
 void *CRYPTO_malloc(size_t num, const char *file, int line)
 {
 	void *p;
-	if (nondet_bool())
+	if (VO_FAILS())
 		return NULL;
 	VF_BOUND(num <= 16, "OPENSSL_malloc size");
 	p = malloc(16);
@@ -253,12 +253,17 @@ int OBJ_sn2nid(const char *s)
 {
 	__CPROVER_assert(s != NULL, "M4: OBJ_sn2nid needs a name");
 	vo_group_name = s;
-	return nondet_int();
+	{
+		int nid = nondet_int();
+		if (nid == 0)
+			vo_oracle_failed = 1;     /* NID_undef: unknown name */
+		return nid;
+	}
 }
 
 EC_GROUP *EC_GROUP_new_by_curve_name(int nid)
 {
-	if (nondet_bool())
+	if (VO_FAILS())
 		return NULL;                  /* unknown curve */
 	o_group = 1;
 	vo_jwk_live++;
@@ -277,7 +282,7 @@ void EC_GROUP_free(EC_GROUP *group)
 EC_POINT *EC_POINT_new(const EC_GROUP *group)
 {
 	__CPROVER_assert(group == TAG(o_group) && o_group, "M4: EC_POINT_new on a live group");
-	if (nondet_bool())
+	if (VO_FAILS())
 		return NULL;
 	o_point = 1;
 	vo_jwk_live++;
@@ -303,14 +308,14 @@ int EC_POINT_set_affine_coordinates(const EC_GROUP *group, EC_POINT *p, const BI
 		vo_point_x[i] = i < x->len ? x->b[i] : 0;
 		vo_point_y[i] = i < y->len ? y->b[i] : 0;
 	}
-	return nondet_bool();                 /* not on the curve: 0 */
+	return !VO_FAILS();                 /* not on the curve: 0 */
 }
 
 size_t EC_POINT_point2buf(const EC_GROUP *group, const EC_POINT *point, point_conversion_form_t form, unsigned char **pbuf, BN_CTX *ctx)
 {
 	unsigned char *b;
 	__CPROVER_assert(group == TAG(o_group) && point == TAG(o_point) && pbuf && form == POINT_CONVERSION_UNCOMPRESSED, "M4: EC_POINT_point2buf arguments");
-	if (nondet_bool())
+	if (VO_FAILS())
 		return 0;
 	b = malloc(16);
 	__CPROVER_assume(b != NULL);
